@@ -439,8 +439,14 @@ def check(run):
             env = pf.default_env(rng, [spec, other])
             for fname in rng.sample(names, 2 if quick else 5):
                 convention_case(run, spec, [other], fname, env, None, pat)
-    for _ in range(3 if quick else 12):
+    for k_ in range(3 if quick else 12):
         iodata_case(run, rng)
+        iodata_case(run, rng, omit=True)
+    container_case(run, rng)
+    single_string_types_case(run, rng)
+    for k_ in range(3 if quick else 12):
+        interaction_case(run, rng, k_)
+    degenerate_sizes_case(run, rng)
     if not quick:
         cs = []
         spec = rand_shell(rng, 1, cs, sph=True, nprim=1, nseg=1, exp_lo=0.2, exp_hi=5.0)
@@ -448,7 +454,167 @@ def check(run):
         convention_case(run, spec, [other], "eri_chemist", None, None, ["-c0", "c1", "-s1"])
 
 
-def iodata_case(run, rng, lmax=3):
+def interaction_case(run, rng, k):
+    """several features at once: shells with declared (shuffled / signed) component conventions, generalized, of both coordinate
+    types, together with a rectangular transformation and — for the overlap — a screening tolerance; compared with the exact model
+    of the same shells"""
+    from gbasis.integrals.overlap import overlap_integral
+    from gbasis.integrals.kinetic_energy import kinetic_energy_integral
+    from gbasis.evals.eval import evaluate_basis
+    from checks.common import custom_order
+    cs = []
+    specs = []
+    for i, l in enumerate([2, 1, 2 + k % 2][: 2 + k % 2]):
+        s_ = rand_shell(rng, l, cs, nprim=rng.randint(1, 2), nseg=1 + (i + k) % 2, sph=bool((i + k) % 2), exp_lo=0.2, exp_hi=10.0).copy(via_update=False)
+        s_ = custom_order(s_, rng, "shuffled")
+        if s_.sph and l >= 2:
+            labs = [f"c{m}" for m in range(l + 1)] + [f"s{m}" for m in range(1, l + 1)]
+            rng.shuffle(labs)
+            s_ = s_.copy(sphord=[rng.choice(["", "-"]) + x for x in labs])
+        specs.append(s_)
+    if k % 3 == 2:          # one shell far away, so that a screening tolerance removes blocks
+        specs[-1] = specs[-1].copy(center=[float(c) + 30.0 for c in specs[0].center])
+    n = sum(s_.size for s_ in specs)
+    T = random_transform(rng, n, rect=True)
+    basis = make_basis(specs)
+    rep = {"case": "interaction", "basis": core.describe_basis(specs), "T": T.tolist(), "signature": {"kind": "interaction"}}
+    run.case(("interaction", k) + sig(specs))
+    run.count("declared conventions + generalized + mixed types + rectangular transformation")
+    model = run.model.array("overlap " + btok(specs))
+    ok = compare(run, "overlap_integral(conventions, transform)", overlap_integral(basis, transform=T), T @ model @ T.T,
+                 1e-9 * float((np.abs(T) @ np.abs(model) @ np.abs(T).T).max()) + 1e-12, rep, "interaction")
+    un = overlap_integral(basis, tol_screen=1e-8)
+    tr = overlap_integral(basis, transform=T, tol_screen=1e-8)
+    if tr.shape != (T.shape[0], T.shape[0]) or np.abs(tr - T @ un @ T.T).max() > 1e-9 * float((np.abs(T) @ np.abs(un) @ np.abs(T).T).max()) + 1e-12:
+        run.violation("overlap_integral(transform=T, tol_screen=1e-8) is not T applied to the screened untransformed matrix", rep)
+        ok = False
+    km = run.model.array("kinetic " + btok(specs))
+    ok &= compare(run, "kinetic_energy_integral(conventions, transform)", kinetic_energy_integral(basis, transform=T), T @ km @ T.T,
+                  1e-9 * float((np.abs(T) @ np.abs(km) @ np.abs(T).T).max()) + 1e-12, rep, "interaction")
+    pts = np.array([[core.snap(rng.uniform(-2, 2), 10) for _ in range(3)] for _ in range(1 + k % 3)])
+    line = ("evalderiv general " + btok(specs) + f" {len(pts)} " + " ".join(core.enc(x) for x in pts.ravel()) + " 0 0 0")
+    v, g = run.model.array_mag(line)
+    ok &= compare(run, "evaluate_basis(conventions, transform)", evaluate_basis(basis, pts, transform=T), T @ v, 1e-9 * (np.abs(T) @ g) + 1e-300, rep, "interaction")
+    return ok
+
+
+def degenerate_sizes_case(run, rng):
+    """one point / one charge / one order triple / a basis with a single function: the result is the corresponding slice of the
+    result for several, with the documented shape"""
+    cs = []
+    for specs in ([rand_shell(rng, 0, cs, nprim=2, nseg=1, exp_hi=10.0)],
+                  [rand_shell(rng, 1, cs, nprim=1, nseg=1, exp_hi=10.0), rand_shell(rng, 2, cs, nprim=2, nseg=2, sph=True, exp_hi=10.0)]):
+        basis = make_basis(specs)
+        n = sum(s_.size for s_ in specs)
+        env = pf.default_env(rng, specs, npts=3, ncharge=3)
+        one = pf.Env(points=env.points[:1], charges=env.charges[:1], charge_pos=env.charge_pos[:1], origin=env.origin, orders=env.orders[:1])
+        run.case(("degenerate-sizes", n) + sig(specs))
+        run.count("one point / one charge / one order triple" + (" / one basis function" if n == 1 else ""))
+        ok = True
+        for fname, nlast in (("evaluate_basis", 1), ("evaluate_deriv_basis(1,0,2)", 1), ("point_charge", 1), ("moment", 1)):
+            f, nax, _ = pf.FUNCS[fname]
+            for T in (None, np.array([[core.snap(rng.uniform(-1, 1), 10) for _ in range(n)]]),
+                      np.array([[core.snap(rng.uniform(-1, 1), 10) for _ in range(n)] for _ in range(n + 1)])):
+                kw = {} if T is None else {"transform": T}
+                many, single = f(basis, env, **kw), f(basis, one, **kw)
+                m = n if T is None else T.shape[0]
+                want = (m,) * nax + (1,)
+                if fname == "point_charge":
+                    nuc = pf.FUNCS["nuclear_attraction"][0](basis, one, **kw)
+                    if np.shape(nuc) != (m, m) or np.abs(np.asarray(nuc) - single[..., 0]).max() > 1e-12 * max(1.0, float(np.abs(single).max())):
+                        run.violation(f"nuclear_electron_attraction_integral with a single nucleus returns shape {np.shape(nuc)} (expected {(m, m)}) "
+                                      "or differs from the single point-charge array",
+                                      {"case": "degenerate-sizes", "function": "nuclear_attraction", "basis": core.describe_basis(specs),
+                                       "signature": {"kind": "degenerate-sizes"}})
+                        ok = False
+                if single.shape != want or np.abs(single - many[..., :1]).max() > 1e-12 * max(1.0, float(np.abs(many).max())):
+                    run.violation(f"{fname} with a single point / charge / order ({'no transformation' if T is None else 'transformation %dx%d' % T.shape}): "
+                                  f"shape {single.shape} (expected {want}) or values differ from the first slice of the several-item result",
+                                  {"case": "degenerate-sizes", "function": fname, "basis": core.describe_basis(specs), "signature": {"kind": "degenerate-sizes"}})
+                    ok = False
+    return ok
+
+
+def single_string_types_case(run, rng):
+    """`construct_array_lincomb(transform, coord_type)` of the base classes: "if multiple shells are given but only one string is
+    provided in the list/tuple, all of the contractions will be treated according to that string" — whatever coordinate type the
+    shell objects themselves carry; compared with the full-length list"""
+    from gbasis.evals.eval import Eval
+    from gbasis.integrals.electron_repulsion import ElectronRepulsionIntegral
+    from gbasis.integrals.kinetic_energy import KineticEnergyIntegral
+    from gbasis.integrals.momentum import MomentumIntegral
+    from gbasis.integrals.overlap import Overlap
+    ok = True
+    for k, ls in enumerate(((0, 1, 2), (1, 2, 0), (2, 2))):
+        for own in (False, True):          # the shells' own coord_type attribute
+            specs = [rand_shell(rng, l, [], nprim=1, nseg=1, sph=own, exp_lo=0.3, exp_hi=5.0).copy(
+                center=[0.4 * i - 0.3, 0.2 * i, -0.5 * i + 0.1], via_update=False) for i, l in enumerate(ls)]
+            basis = make_basis(specs)
+            pts = np.array([[0.3, -0.2, 0.5], [1.0, 0.4, -0.6]])
+            for want in ("spherical", "cartesian"):
+                n = sum((2 * s_.l + 1) if want == "spherical" else (s_.l + 1) * (s_.l + 2) // 2 for s_ in specs)
+                T = random_transform(rng, n, rect=True)
+                for cname, make, kw in (("Overlap", lambda: Overlap(basis), {}), ("KineticEnergyIntegral", lambda: KineticEnergyIntegral(basis), {}),
+                                        ("MomentumIntegral", lambda: MomentumIntegral(basis), {}), ("Eval", lambda: Eval(basis), {"points": pts}),
+                                        ("ElectronRepulsionIntegral", lambda: ElectronRepulsionIntegral(basis), {})):
+                    if cname == "ElectronRepulsionIntegral" and (k != 1 or run.tier == "quick" and own):
+                        continue
+                    run.case(("single-string-types", cname, ls, own, want))
+                    run.count("class-level lincomb with a one-string coord_type list")
+                    full = make().construct_array_lincomb(T, [want] * len(specs), **kw)
+                    try:
+                        one = make().construct_array_lincomb(T, [want], **kw)
+                    except Exception as e:
+                        run.violation(f"{cname}.construct_array_lincomb(T, ['{want}']) raised {type(e).__name__}: {e} for {len(specs)} shells "
+                                      "(documented: one string applies to all shells)",
+                                      {"case": "single-string-types", "class": cname, "basis": core.describe_basis(specs), "signature": {"kind": "single-string-types"}})
+                        ok = False
+                        continue
+                    if one.shape != full.shape or not np.array_equal(one, full):
+                        run.violation(f"{cname}.construct_array_lincomb(T, ['{want}']) differs from the call with the full-length list",
+                                      {"case": "single-string-types", "class": cname, "basis": core.describe_basis(specs), "signature": {"kind": "single-string-types"}})
+                        ok = False
+    return ok
+
+
+def container_case(run, rng):
+    """the basis given as a tuple instead of a list (both are documented), for every public function incl. the density-type ones"""
+    from gbasis.evals import density as Dn
+    from gbasis.evals import stress_tensor as ST
+    from gbasis.evals.electrostatic_potential import electrostatic_potential
+    specs = random_basis(rng, 2, 2, lmax=1, exp_hi=10.0)
+    specs = [s_.copy(coeffs=s_.coeffs[:, :1].copy()) for s_ in specs]
+    env = pf.default_env(rng, specs)
+    lst = make_basis(specs)
+    tup = tuple(lst)
+    n = sum(s_.size for s_ in specs)
+    g = random_symmetric(rng, n, psd=True)
+    funcs = {name: (lambda b, f=f: f(b, env)) for name, (f, _, _) in pf.FUNCS.items()}
+    funcs.update({
+        "evaluate_density": lambda b: Dn.evaluate_density(g, b, env.points),
+        "evaluate_density_gradient": lambda b: Dn.evaluate_density_gradient(g, b, env.points),
+        "evaluate_density_laplacian": lambda b: Dn.evaluate_density_laplacian(g, b, env.points),
+        "evaluate_density_hessian": lambda b: Dn.evaluate_density_hessian(g, b, env.points),
+        "evaluate_posdef_kinetic_energy_density": lambda b: Dn.evaluate_posdef_kinetic_energy_density(g, b, env.points),
+        "evaluate_general_kinetic_energy_density": lambda b: Dn.evaluate_general_kinetic_energy_density(g, b, env.points, 0.5),
+        "evaluate_stress_tensor": lambda b: ST.evaluate_stress_tensor(g, b, env.points, alpha=0.5, beta=1.0),
+        "evaluate_ehrenfest_force": lambda b: ST.evaluate_ehrenfest_force(g, b, env.points, alpha=0.5, beta=1.0),
+        "evaluate_ehrenfest_hessian": lambda b: ST.evaluate_ehrenfest_hessian(g, b, env.points, alpha=0.5, beta=1.0),
+        "electrostatic_potential": lambda b: electrostatic_potential(b, g, env.points, env.charge_pos, np.abs(env.charges)),
+    })
+    ok = True
+    for name, f in funcs.items():
+        run.case(("container", name))
+        run.count("basis given as a tuple")
+        a, b_ = f(lst), f(tup)
+        if a.shape != b_.shape or not np.array_equal(a, b_):
+            run.violation(f"{name}: the basis given as a tuple gives another result than the same shells in a list",
+                          {"case": "container", "function": name, "basis": core.describe_basis(specs), "signature": {"kind": "container"}})
+            ok = False
+    return ok
+
+
+def iodata_case(run, rng, lmax=3, omit=False):
     """the conventions (order of the Cartesian components, order *and signs* of the pure functions) that an IOData object declares
     must show in every array computed from the basis that gbasis.wrappers.from_iodata builds: compared with the exact model of the
     equivalent shells (overlap, evaluation) and, for the other functions, with the same shells given through a subclass"""
@@ -456,7 +622,7 @@ def iodata_case(run, rng, lmax=3):
     from gbasis.integrals.overlap import overlap_integral
     from gbasis.evals.eval import evaluate_basis
     standin = install_iodata_standin()
-    mol, specs = iodata_molecule(rng, lmax)
+    mol, specs = iodata_molecule(rng, lmax, omit_unused_cart=omit)
     basis = from_iodata(mol)
     rep = {"case": "iodata", "basis": core.describe_basis(specs), "conventions": {f"{k[0]}{k[1]}": v for k, v in mol.obasis.conventions.items()},
            "signature": {"kind": "iodata-convention"}}
@@ -464,7 +630,7 @@ def iodata_case(run, rng, lmax=3):
     run.count("from_iodata with declared conventions" + (" (stand-in for iodata.convert)" if standin else ""))
     ok = True
     for sh, sp_ in zip(basis, specs):
-        decl_c = [tuple(c) for c in sp_.cart]
+        decl_c = [tuple(c) for c in sp_.cart] if sp_.cart is not None else [tuple(int(v) for v in c) for c in sp_.make().angmom_components_cart]
         if [tuple(int(v) for v in c) for c in sh.angmom_components_cart] != decl_c or \
                 (sp_.sphord is not None and list(sh.angmom_components_sph) != list(sp_.sphord)):
             run.violation(f"the l={sp_.l} shell built by from_iodata reports other component conventions than the IOData object declares "
@@ -476,6 +642,14 @@ def iodata_case(run, rng, lmax=3):
     line = ("evalderiv general " + btok(specs) + f" {len(pts)} " + " ".join(core.enc(x) for x in pts.ravel()) + " 0 0 0")
     v, g = run.model.array_mag(line)
     ok &= compare(run, "evaluate_basis(from_iodata(mol))", evaluate_basis(basis, pts), v, 1e-9 * g + 1e-300, rep, "iodata-convention")
+    # the asymmetric overlap with a plain basis on either side (mixed Cartesian / pure second basis whose shells declare pure
+    # conventions only for the angular momenta that are pure)
+    from gbasis.integrals.overlap_asymm import overlap_integral_asymmetric
+    plain = [rand_shell(rng, rng.randint(0, 2), [], nprim=2, nseg=1, exp_hi=10.0).copy(via_update=False) for _ in range(2)]
+    for left, right, ls_, rs_ in ((make_basis(plain), basis, plain, specs), (basis, make_basis(plain), specs, plain)):
+        masym = run.model.array("overlap_asym " + btok(ls_) + " " + btok(rs_))
+        ok &= compare(run, "overlap_integral_asymmetric with a from_iodata basis", overlap_integral_asymmetric(left, right), masym,
+                      1e-9 * max(1.0, float(np.abs(masym).max())), rep, "iodata-convention")
     # another molecule with other conventions is loaded in between: the first basis must keep its own
     mol2, specs2 = iodata_molecule(rng, lmax)
     basis2 = from_iodata(mol2)
@@ -498,6 +672,17 @@ def iodata_case(run, rng, lmax=3):
 
 def replay(run, rep):
     n0 = len(run.violations)
+    if rep["case"] == "single-string-types":
+        single_string_types_case(run, run.rng)
+        return len(run.violations) == n0
+    if rep["case"] == "container":
+        container_case(run, run.rng)
+        return len(run.violations) == n0
+    if rep["case"] in ("interaction", "degenerate-sizes"):
+        for k_ in range(6):
+            interaction_case(run, run.rng, k_)
+        degenerate_sizes_case(run, run.rng)
+        return len(run.violations) == n0
     if rep["case"] == "iodata":
         for _ in range(6):
             iodata_case(run, run.rng)
